@@ -227,6 +227,16 @@ def groups_record(rng):
     arr = np.array([rng.choice([0, 0, 1, 2, 3, 4, 5, 9]) for _ in range(8)], dtype=np.uint8)
     if rng.random() < 0.5:
         labels = [rng.choice([-1, 0, 1, 2, 2, 3, 5]) for _ in range(rng.randint(0, 3))]
+        if rng.random() < 0.6:
+            # a wider universe: 3-5 labels below 26 in any order (interleaved with labels outside the
+            # group, near-contiguous runs with one outlier), the array drawn from the same range
+            base = rng.randint(1, 12)
+            n = rng.randint(3, 5)
+            labels = [base + i for i in range(n)]
+            for _ in range(rng.randint(0, 2)):
+                labels[rng.randrange(n)] = rng.randint(1, 25)
+            rng.shuffle(labels)
+            arr = np.array([rng.choice([0] + list(range(max(0, base - 2), min(26, base + n + 10)))) for _ in range(12)], dtype=np.uint8)
         single, merge = rng.random() < 0.4, rng.random() < 0.4
         rec = {"kind": "group", "labels": labels, "single": single, "merge": merge, "out": "ok", "rlabels": [], "arr": arr.tolist(), "ext": [],
                "entries": [], "keys": [], "glabels": [], "gsingle": [], "defined": True}
@@ -276,10 +286,37 @@ def groups_record(rng):
     return rec
 
 
+def exhaustive_group_records(top: int):
+    """Every label set of size 1..3 over 1..top (and of size 4 over 1..12), as a plain and as a merge
+    group, applied to an array that holds every value 0..top+2 once."""
+    import itertools
+    import numpy as np
+    from panoptica.utils import LabelGroup, LabelMergeGroup
+    arr = np.arange(0, top + 3, dtype=np.uint8)
+    recs = []
+    sets = [c for k in (1, 2, 3) for c in itertools.combinations(range(1, top + 1), k)]
+    sets += list(itertools.combinations(range(1, 13), 4))
+    with quiet():
+        for labs in sets:
+            for merge in (False, True):
+                rec = {"kind": "group", "labels": list(labs), "single": False, "merge": merge, "out": "ok", "rlabels": [], "arr": arr.tolist(),
+                       "ext": [], "entries": [], "keys": [], "glabels": [], "gsingle": [], "defined": True}
+                try:
+                    g = (LabelMergeGroup if merge else LabelGroup)(list(labs), single_instance=False)
+                    rec["rlabels"] = [int(x) for x in g.value_labels]
+                    rec["ext"] = [int(x) for x in g(arr)]
+                except Exception as e:  # noqa: BLE001
+                    rec["out"] = "raise"
+                    rec["meta"] = {"exception": f"{type(e).__name__}"}
+                recs.append(rec)
+    return recs
+
+
 def extra_groups(v: Verdict, tier: str):
     rng = random.Random(seed() * 7919 + 606)
     with quiet():
-        recs = [groups_record(rng) for _ in range(300 if tier == "quick" else 5000)]
+        recs = [groups_record(rng) for _ in range(1500 if tier == "quick" else 12000)]
+    recs += exhaustive_group_records(20 if tier == "quick" else 28)
     for r in recs:
         r.setdefault("meta", {})
     n = validate_traces(v, "Trace_Groups", ["T_GroupValidity", "T_GroupLabels", "T_GroupExtract", "T_GroupsKeys", "T_GroupsContent", "T_GroupsDefined"],
